@@ -109,6 +109,7 @@ type State struct {
 	GhostPrev    []ghostStep
 	Closes       []Term
 	Volatile     []Term
+	VolTys       []types.Type // types of the variables in Volatile
 	Spawned      bool
 	LocksTouched []Term
 	OwnedClose   []Term
@@ -120,6 +121,7 @@ type State struct {
 	PrivChans    []Term // channels made by this unit that nothing else can reach yet
 	PrivTaint    map[string][]string // local variable cell -> private channels stored in it
 	Weak         []string            // facts lost on this path only because a function of the module has no contract
+	Cuts         []string            // labels of the loops this path was cut at (their invariants were assumed)
 }
 
 // universal is an assumed forall kept for later instantiation at new terms.
@@ -152,6 +154,7 @@ func (s *State) Clone() *State {
 		GhostPrev:    append([]ghostStep(nil), s.GhostPrev...),
 		Closes:       append([]Term(nil), s.Closes...),
 		Volatile:     append([]Term(nil), s.Volatile...),
+		VolTys:       append([]types.Type(nil), s.VolTys...),
 		Spawned:      s.Spawned,
 		LocksTouched: append([]Term(nil), s.LocksTouched...),
 		OwnedClose:   s.OwnedClose,
@@ -163,6 +166,7 @@ func (s *State) Clone() *State {
 		PrivChans:    append([]Term(nil), s.PrivChans...),
 		PrivTaint:    cloneTaint(s.PrivTaint),
 		Weak:         s.Weak,
+		Cuts:         s.Cuts,
 	}
 	for k, v := range s.Mem {
 		n.Mem[k] = v
